@@ -49,11 +49,16 @@ def run(tier, only=None):
     units = [("c09.filter", "tok_filter.c", ["-DMODE_SAFE", "-DNMAX=%d" % fl], LTI, None, max(fl, 20) + 6, 700 if quick else 5400),
              # the end of the line buffer: a fixed significant prefix of 90 characters, then 16 arbitrary bytes
              ("c09.filter.boundary", "tok_filter.c", ["-DMODE_SAFE", "-DNMAX=106", "-DPREFIX_LEN=90"], LTI, None, 112, 700 if quick else 3000)]
-    opds = [(3, 1), (2, 2)] if quick else [(5, 1), (2, 3), (6, 1), (3, 2), (4, 1)]
+    # (the composed operand splitter does not finish within the per-change budget even for two one-character operands:
+    #  thorough tier only; per change its parts are decided one by one by the leaf queries)
+    opds = [] if quick else [(2, 1), (3, 1), (2, 2), (5, 1)]
     for k, w in opds:
         # (the keyword scanner is replaced by its contract stub here; it is decided on its own by c09.leaf.kw.*)
         units.append(("c09.opds.%dx%d" % (k, w), "tok_opds.c", ["-DNOPD=%d" % k, "-DOPW=%d" % w, "-DKW_STUB"],
                       [("__CPROVER_file_local_tokenizer_c_check_for_keyword", "stub_check_for_keyword")], None, 4 + k * (w + 1) + 4, 700 if quick else 5400))
+    # how many operands the splitter is prepared to store: concrete one-letter operands, 1..7 of them
+    for k in range(1, 8):
+        units.append(("c09.opcount.%d" % k, "tok_opds.c", ["-DNOPD=%d" % k, "-DOPW=1", "-DOPS_CONCRETE"], [], None, 4 + 2 * k + 4, 300))
     firsts = list(range(0x5b, 0x7b))
     for c in firsts:
         units.append(("c09.leaf.instrkey.%02x" % c, "tok_leaf.c", ["-DT_INSTRKEY", "-DLEAFLEN=12", "-DFIRST=%d" % c], [], "leaf", 20, 600))
@@ -69,7 +74,7 @@ def run(tier, only=None):
     def ujob(u):
         sb = u[5]
         return te.unit(u[0], u[1], defs=u[2], replace=u[3], unwind=sb + 2, checks="full", timeout=u[6],
-                       hunt={"cap": 6, "timeout": 60, "keep": ("asm_build_index_tables",)} if u[4] == "leaf" else None,
+                       hunt={"cap": 6, "timeout": 15, "keep": ("asm_build_index_tables",)} if u[4] == "leaf" else None,
                        replay_fn=leaf_replay(None) if u[4] == "leaf" else None,
                        unwindset={"strstr.0": sb, "strstr.1": sb, "strlen.0": sb, "strchr.0": sb, "strtok_r.0": sb, "strtok_r.1": sb,
                                   "find_reg.0": te.tb["reg_rows"] + 2, "strcmp.0": 12, "vf_model_strtoul.0": 30, "vf_model_strtoul.1": 30,
